@@ -77,6 +77,11 @@ CHECKS = {
         technique="type-flow on the operands of the chart-membership comparisons",
         text="Decides that the comparisons deciding chart membership never route their operand through a real-typed cast unless it is a modulus, and that set and get use one chart index. Not affine maps/intersections numerically.",
         ref="DESIGN.md §4 C16"),
+    "C17": dict(
+        engine="SH8 + T3 + T4 + U1",
+        technique="abstract interpretation of the Lie-group maps over symbolic batch shapes (closures, dictionaries and data-dependent branches followed); dtype-provenance lint of `like=`; call-graph unbound-name scan",
+        text="Narrow. Decides only structural necessary conditions of the clause 'for single matrices and for arrays of matrices alike' and of the images being numeric: each map of lie/core.py (sl2_irrep, sl2_to_so21, block_include, slc_to_slr, gln_adjoint, sln_adjoint, sl2c_herm_action, sl2c_to_so31, o_to_pgl with and without its default form) returns, for a single matrix and for arrays of every rank, the batch axes of its argument followed by the documented square shape; no image takes its dtype from a callable or is divided in place into a caller-typed array; no unbound name is reachable from the anchored maps and their wrappers. Not that products go to products, determinants, preserved forms, the Killing form or the inverse up to sign (polynomial identities of the computed matrices).",
+        ref="DESIGN.md §4 C17"),
     "C18": dict(
         engine="AX1 + PA1 + SH2 + T3 + U1",
         technique="abstract interpretation of the helpers over symbolic batch shapes with NumPy-scalar typing; axis-discipline lint; sibling agreement of the W / W^-1 permutations; call-graph unbound-name scan",
@@ -97,7 +102,6 @@ CHECKS = {
 NA = {
     "C02": "Form preservation of computed matrices is a numerical identity; no code-shape clause is a necessary condition a realistic change breaks (DESIGN §4 C02).",
     "C07": "Correctness of the Brink-Howlett small-root automaton needs a word-problem oracle over an infinite language; no clause is visible in code shape (DESIGN §4 C07).",
-    "C17": "Polynomial identities of the Lie-group maps in >=8 variables: solver/CAS or sampling family, not code shape (DESIGN §4 C17).",
 }
 
 TRUST = ("Trusted base: the hand-written import/MRO/CHA resolution in sa/project.py "
